@@ -336,12 +336,10 @@ func ReadVarLengthData(reader io.Reader) ([]byte, error) {
 		return []byte{}, err
 	}
 
-	var buffer []byte = make([]byte, length)
-
-	num, err := reader.Read(buffer)
+	buffer, err := ReadNBytes(int(length), reader)
 
 	// If we couldn't read the entire expected-length buffer, that's a problem.
-	if num != int(length) {
+	if err == io.EOF || err == io.ErrUnexpectedEOF {
 		return []byte{}, ErrUnexpectedEOF
 	}
 
